@@ -166,6 +166,31 @@ def ref_eval(t, leaf, pre):
     return Rat(x >> y)
 
 
+def neighbours(text):
+    """texts that differ from `text` only in layout: parsed earlier in the same process they must not change the verdict
+    on `text` (the parser keeps no state between calls)"""
+    out = []
+    for t in (''.join(text.split()), text.replace(' ', '  '), text.replace('(', '').replace(')', ''), text.upper(), text.lower(),
+              text.rstrip('+-*/ #`$'), text + ' + 1', '(' + text + ')', text.replace(' ', '', 1)):
+        if t != text and t not in out:
+            out.append(t)
+    return out + ['p + q', '12', '$10', '1<<2', 'p', '-p']
+
+
+def warm_up(texts):
+    from bespokeasm.expression import parse_expression
+    from bespokeasm.assembler.line_identifier import LineIdentifier
+    lid = LineIdentifier(3, 'earlier')
+    for h in texts:
+        try:
+            parse_expression(lid, h)
+        except E.EngineSignal:
+            raise
+        except BaseException as e:  # noqa
+            if isinstance(e, (KeyboardInterrupt, GeneratorExit)):
+                raise
+
+
 class ExprShape(Shape):
     kind = 'UNIT'
     max_paths = 400
@@ -181,7 +206,7 @@ class ExprShape(Shape):
             shims.install()
 
     def expected_outcomes(self):
-        return ['ok'] if self.sid.split(':')[0] in ('op1', 'op2', 'op3', 'hand', 'neg-mid', 'neg-first', 'neg-last', 'neg-mid-right') else []
+        return ['ok'] if self.sid.split(':')[0] in ('op1', 'op2', 'op3', 'hand', 'after-op1', 'after-hand', 'neg-mid', 'neg-first', 'neg-last', 'neg-mid-right') else []
 
     def _leaves(self):
         out = []
@@ -208,6 +233,8 @@ class ExprShape(Shape):
         for nm in self._leaves():
             scope.set_label_value(nm, env.sym(nm, 0, 12) if nm in counts else env.sym(nm, -lim, lim), lid)
         text = self.params.get('text') or render(self.params['tree'])
+        if self.params.get('history'):
+            warm_up(neighbours(text))
         try:
             v = parse_expression(lid, text).get_value(scope, lid)
         except SystemExit as e:
@@ -258,6 +285,8 @@ class MalformedShape(Shape):
         scope = GlobalLabelScope(set())
         for nm in ('p', 'q'):
             scope.set_label_value(nm, env.sym(nm, -100, 100), lid)
+        if self.params.get('history'):
+            warm_up(neighbours(self.params['text']))
         try:
             v = parse_expression(lid, self.params['text']).get_value(scope, lid)
         except SystemExit as e:
@@ -414,4 +443,10 @@ def shapes(tier, seed):
             add('dec3', decorate(t, rnd))
     for i, txt in enumerate(MALFORMED):
         S.append(MalformedShape(f'malformed:{i}:{txt}', text=txt))
+    # the verdict on a text does not depend on what was parsed before it in the same run
+    for i, txt in enumerate(MALFORMED):
+        S.append(MalformedShape(f'malformed-after:{i}:{txt}', text=txt, history=True))
+    for sh in list(S):
+        if sh.sid.split(':')[0] in ('op1', 'hand'):
+            S.append(ExprShape('after-' + sh.sid, tree=sh.params['tree'], history=True))
     return S
